@@ -12,7 +12,7 @@ using vf::Rng;
 static const char *OPN[] = {"refineX", "refineY", "coarsenX", "coarsenY", "improve", "run", "refine", "coarsenFully", "refineFully", "updateCellDemand"};
 
 static void densityCase(Rng &rng, CaseResult &r) {
-  GenOpts o = makeProfile(rng, rng.pick(std::vector<std::string>{"general", "obstruction", "manyfixed", "dense", "multirow"}));
+  GenOpts o = makeProfile(rng, rng.pick(std::vector<std::string>{"general", "obstruction", "manyfixed", "dense", "multirow", "blocked", "blocked"}));
   o.maxCells = (int)rng.pick(std::vector<int>{5, 15, 30, 60});
   o.maxRows = 12;
   if (rng.chance(0.15)) o.scale = (int)rng.pick(std::vector<int>{10, 100});
